@@ -401,6 +401,23 @@ impl Auto {
         }
     }
 
+    /// The bytes of the automaton object itself (its inline fields: vector headers, kind, counts
+    /// and any cell / atomic a change may add). Used to show that searching does not write to it.
+    pub fn object_bytes(&self) -> Vec<u8> {
+        fn bytes_of<T>(x: &T) -> Vec<u8> {
+            let n = std::mem::size_of_val(x);
+            let p = (x as *const T).cast::<std::mem::MaybeUninit<u8>>();
+            // Padding bytes are read as they are; they do not change between two reads.
+            (0..n)
+                .map(|i| unsafe { std::ptr::read_volatile(p.add(i)).assume_init() })
+                .collect()
+        }
+        match self {
+            Auto::B(a) => bytes_of(a),
+            Auto::C(a) => bytes_of(a),
+        }
+    }
+
     pub fn raw(&self) -> RawAutomaton<u32> {
         match self {
             Auto::B(a) => a.verif_raw(),
